@@ -110,6 +110,8 @@ SS_CREATE = {'main': 'src/superscalar.cpp', 'keep': ['SuperscalarInstruction::cr
 
 SS_FETCH = {'main': 'src/superscalar.cpp', 'keep': ['DecoderBuffer::fetchNext', 'DecoderBuffer::fetchNextDefault'], 'opaque_classes': ['MacroOp', 'SuperscalarInstructionInfo', 'Blake2Generator', 'SuperscalarInstruction', 'RegisterInfo'], 'drop_vars': ['SuperscalarInstruction::Null', 'SuperscalarInstruction_Null', '\\bslot_\\w+', 'buffer\\d', 'DecoderBuffer::\\w+', 'DecoderBuffer_\\w+', '\\bNull\\b', 'decodeBuffers'], 'pre_rewrites': [{'name': 'generator byte -> stand-in', 'pattern': 'gen\\.getByte\\(\\)', 'repl': 'rxv_gen_u8(&gen)'}], 'source_must_match': [{'name': 'decodeBuffer484 is group 0 (4,8,4)', 'pattern': 'decodeBuffer484\\s*=\\s*DecoderBuffer\\(\\"4,8,4\\",\\s*0,\\s*buffer0\\)'}, {'name': 'buffer0 = {4, 8, 4}', 'pattern': 'buffer0\\[\\]\\s*=\\s*\\{\\s*4,\\s*8,\\s*4\\s*\\}'}, {'name': 'decodeBuffer7333 is group 1 (7,3,3,3)', 'pattern': 'decodeBuffer7333\\s*=\\s*DecoderBuffer\\(\\"7,3,3,3\\",\\s*1,\\s*buffer1\\)'}, {'name': 'buffer1 = {7, 3, 3, 3}', 'pattern': 'buffer1\\[\\]\\s*=\\s*\\{\\s*7,\\s*3,\\s*3,\\s*3\\s*\\}'}, {'name': 'decodeBuffer3733 is group 2 (3,7,3,3)', 'pattern': 'decodeBuffer3733\\s*=\\s*DecoderBuffer\\(\\"3,7,3,3\\",\\s*2,\\s*buffer2\\)'}, {'name': 'buffer2 = {3, 7, 3, 3}', 'pattern': 'buffer2\\[\\]\\s*=\\s*\\{\\s*3,\\s*7,\\s*3,\\s*3\\s*\\}'}, {'name': 'decodeBuffer493 is group 3 (4,9,3)', 'pattern': 'decodeBuffer493\\s*=\\s*DecoderBuffer\\(\\"4,9,3\\",\\s*3,\\s*buffer3\\)'}, {'name': 'buffer3 = {4, 9, 3}', 'pattern': 'buffer3\\[\\]\\s*=\\s*\\{\\s*4,\\s*9,\\s*3\\s*\\}'}, {'name': 'decodeBuffer4444 is group 4 (4,4,4,4)', 'pattern': 'decodeBuffer4444\\s*=\\s*DecoderBuffer\\(\\"4,4,4,4\\",\\s*4,\\s*buffer4\\)'}, {'name': 'buffer4 = {4, 4, 4, 4}', 'pattern': 'buffer4\\[\\]\\s*=\\s*\\{\\s*4,\\s*4,\\s*4,\\s*4\\s*\\}'}, {'name': 'decodeBuffer3310 is group 5 (3,3,10)', 'pattern': 'decodeBuffer3310\\s*=\\s*DecoderBuffer\\(\\"3,3,10\\",\\s*5,\\s*buffer5\\)'}, {'name': 'buffer5 = {3, 3, 10}', 'pattern': 'buffer5\\[\\]\\s*=\\s*\\{\\s*3,\\s*3,\\s*10\\s*\\}'}, {'name': 'default groups 0-3 in order', 'pattern': 'decodeBuffers\\[4\\]\\s*=\\s*\\{\\s*&DecoderBuffer::decodeBuffer484,\\s*&DecoderBuffer::decodeBuffer7333,\\s*&DecoderBuffer::decodeBuffer3733,\\s*&DecoderBuffer::decodeBuffer493,?\\s*\\}'}], 'must_fire': {'recipe rewrite: generator byte -> stand-in': 2}}
 
+SS_CREATE_FOR_SLOT = {'main': 'src/superscalar.cpp', 'keep': ['SuperscalarInstruction::createForSlot'], 'opaque_classes': ['MacroOp', 'SuperscalarInstructionInfo', 'DecoderBuffer', 'Blake2Generator'], 'drop_vars': ['SuperscalarInstruction::Null', 'SuperscalarInstruction_Null', '\\bslot_\\w+', 'buffer\\d', 'decodeBuffers?', '\\bNull\\b'], 'pre_rewrites': [{'name': 'generator byte -> stand-in', 'pattern': 'gen\\.getByte\\(\\)', 'repl': 'rxv_gen_u8(&gen)'}, {'name': 'create -> stand-in', 'pattern': '\\bcreate\\(([^;]*), gen\\);', 'repl': 'rxv_create(this, \\1, &gen);'}, {'name': 'IMUL_R info object', 'pattern': '&SuperscalarInstructionInfo::IMUL_R', 'repl': 'rxv_info_IMUL_R'}], 'source_must_match': [{'name': 'slot_3 = {ISUB_R, IXOR_R}', 'pattern': 'slot_3\\[\\]\\s*=\\s*\\{\\s*&SuperscalarInstructionInfo::ISUB_R,\\s*&SuperscalarInstructionInfo::IXOR_R\\s*\\}'}, {'name': 'slot_3L = {ISUB_R, IXOR_R, IMULH_R, ISMULH_R}', 'pattern': 'slot_3L\\[\\]\\s*=\\s*\\{\\s*&SuperscalarInstructionInfo::ISUB_R,\\s*&SuperscalarInstructionInfo::IXOR_R,\\s*&SuperscalarInstructionInfo::IMULH_R,\\s*&SuperscalarInstructionInfo::ISMULH_R\\s*\\}'}, {'name': 'slot_4 = {IROR_C, IADD_RS}', 'pattern': 'slot_4\\[\\]\\s*=\\s*\\{\\s*&SuperscalarInstructionInfo::IROR_C,\\s*&SuperscalarInstructionInfo::IADD_RS\\s*\\}'}, {'name': 'slot_7 = {IXOR_C7, IADD_C7}', 'pattern': 'slot_7\\[\\]\\s*=\\s*\\{\\s*&SuperscalarInstructionInfo::IXOR_C7,\\s*&SuperscalarInstructionInfo::IADD_C7\\s*\\}'}, {'name': 'slot_8 = {IXOR_C8, IADD_C8}', 'pattern': 'slot_8\\[\\]\\s*=\\s*\\{\\s*&SuperscalarInstructionInfo::IXOR_C8,\\s*&SuperscalarInstructionInfo::IADD_C8\\s*\\}'}, {'name': 'slot_9 = {IXOR_C9, IADD_C9}', 'pattern': 'slot_9\\[\\]\\s*=\\s*\\{\\s*&SuperscalarInstructionInfo::IXOR_C9,\\s*&SuperscalarInstructionInfo::IADD_C9\\s*\\}'}, {'name': 'slot_10 = IMUL_RCP', 'pattern': 'slot_10\\s*=\\s*&SuperscalarInstructionInfo::IMUL_RCP'}], 'must_fire': {'recipe rewrite: create -> stand-in': 8, 'recipe rewrite: generator byte -> stand-in': 6}}
+
 # randomx_init_cache: std::string operations -> the abstract string model of the extractor prelude
 STR_OPS = [{"name": "local std::string -> rxv_string", "pattern": r"\bstd::string (\w+);", "repl": r"rxv_string \1 = { 0, 0, 0 };"},
            {"name": "std::string::assign -> rxv_string_assign", "pattern": r"\b(\w+(?:->\w+)*)\.assign\(", "repl": r"rxv_string_assign(&\1, "},
